@@ -8,6 +8,7 @@ import (
 	"fmt"
 	"hash/fnv"
 	"os"
+	"runtime"
 	"runtime/debug"
 	"sort"
 	"strconv"
@@ -173,6 +174,26 @@ type Summary struct {
 // use it to pick corpus entries in order).
 type RunFunc func(cfg Config, idx int, tp *tape.Tape) Result
 
+// watchdog kills the process when one run takes absurdly long in wall-clock time (a bubble
+// whose goroutines wait for a sync.Mutex never becomes quiescent): it dumps every
+// goroutine so that the driver can tell a deadlock of the system under test from a hang
+// of the harness.
+func watchdog(idx int, seed uint64) (stop func()) {
+	limit := time.Duration(envInt("VSIM_RUN_WATCHDOG_S", 180)) * time.Second
+	done := make(chan struct{})
+	go func() {
+		select {
+		case <-done:
+		case <-time.After(limit):
+			buf := make([]byte, 8<<20)
+			n := runtime.Stack(buf, true)
+			fmt.Fprintf(os.Stderr, "VSIM-WATCHDOG idx=%d seed=%d: run exceeded %v of wall-clock time\n%s\n", idx, seed, limit, buf[:n])
+			os.Exit(4)
+		}
+	}()
+	return func() { close(done) }
+}
+
 // RunSeed derives the seed of run idx.
 func RunSeed(master uint64, idx int) uint64 { return tape.Mix(master, uint64(idx)+1) }
 
@@ -274,7 +295,9 @@ func Main(cfg Config, run RunFunc) {
 		// goroutines cannot be recovered from outside), this line tells the driver which
 		// run it was.
 		fmt.Fprintf(os.Stderr, "VSIM-RUN idx=%d seed=%d\n", idx, seed)
+		stopWatch := watchdog(idx, seed)
 		res := run(cfg, idx, tp)
+		stopWatch()
 		n++
 		sum.LastIndex = idx
 		sum.Runs++
